@@ -297,6 +297,7 @@ func c01Branch(c *Ctx) {
 	rule := "C01-BRANCH"
 	checkBranchPolarity(c, rule)
 	checkImportLoopPolarity(c, rule)
+	checkCountersFinal(c, rule)
 }
 
 // checkImportLoopPolarity: each re-derivation loop of import (bounded by one branch's counter) derives
